@@ -12,6 +12,7 @@ pub mod c06;
 pub mod c07;
 pub mod c08;
 pub mod c09;
+pub mod c11;
 pub mod c12;
 pub mod c13;
 pub mod c14;
@@ -19,6 +20,7 @@ pub mod c16;
 pub mod c17;
 pub mod c18;
 pub mod c19;
+pub mod c20;
 pub mod wellformed;
 pub mod c15;
 
@@ -53,6 +55,7 @@ pub fn property(id: &str) -> Option<Property> {
         "C07" => Some(c07::property()),
         "C08" => Some(c08::property()),
         "C09" => Some(c09::property()),
+        "C11" => Some(c11::property()),
         "C12" => Some(c12::property()),
         "C13" => Some(c13::property()),
         "C14" => Some(c14::property()),
@@ -60,9 +63,10 @@ pub fn property(id: &str) -> Option<Property> {
         "C17" => Some(c17::property()),
         "C18" => Some(c18::property()),
         "C19" => Some(c19::property()),
+        "C20" => Some(c20::property()),
         "C15" => Some(c15::property()),
         _ => None,
     }
 }
 
-pub const ALL: &[&str] = &["C01", "C02", "C03", "C04", "C06", "C07", "C08", "C09", "C12", "C13", "C14", "C15", "C16", "C17", "C18", "C19"];
+pub const ALL: &[&str] = &["C01", "C02", "C03", "C04", "C06", "C07", "C08", "C09", "C11", "C12", "C13", "C14", "C15", "C16", "C17", "C18", "C19", "C20"];
